@@ -645,3 +645,55 @@ pub fn suffix_flags(ops: &[Op]) -> Vec<(bool, bool)> {
     }
     v
 }
+
+/// (appended for C07/C28) Applies concrete writes to an open transaction without ending it,
+/// so that callers can add further calls (e.g. `set_vector`) before commit or abandon.
+/// Same behaviour as the loop inside `exec_tx`.
+pub fn apply_rws(tx: &mut nervusdb::WriteTxn<'_>, rws: &[RW]) -> Result<(), (String, String)> {
+    for rw in rws {
+        match rw {
+            RW::CreateNode { ext, labels, iid } => {
+                let first = match labels.first() {
+                    Some(l) => tx.get_or_create_label(l).map_err(|e| ("get_or_create_label".to_string(), estr(e)))?,
+                    None => u32::MAX,
+                };
+                let got = tx.create_node(*ext, first).map_err(|e| ("create_node".to_string(), estr(e)))?;
+                if got != *iid {
+                    return Err(("create_node".into(), format!("internal id {got} allocated, model expected {iid}")));
+                }
+                for l in labels.iter().skip(1) {
+                    let lid = tx.get_or_create_label(l).map_err(|e| ("get_or_create_label".to_string(), estr(e)))?;
+                    WriteableGraph::add_node_label(tx, got, lid).map_err(|e| ("add_node_label".to_string(), estr(e)))?;
+                }
+            }
+            RW::AddLabel { n, l } => {
+                let lid = tx.get_or_create_label(l).map_err(|e| ("get_or_create_label".to_string(), estr(e)))?;
+                WriteableGraph::add_node_label(tx, *n, lid).map_err(|e| ("add_node_label".to_string(), estr(e)))?;
+            }
+            RW::RemoveLabel { n, l } => {
+                let lid = tx.get_or_create_label(l).map_err(|e| ("get_or_create_label".to_string(), estr(e)))?;
+                WriteableGraph::remove_node_label(tx, *n, lid).map_err(|e| ("remove_node_label".to_string(), estr(e)))?;
+            }
+            RW::CreateEdge { s, t, d } => {
+                let tid = tx.get_or_create_rel_type(t).map_err(|e| ("get_or_create_rel_type".to_string(), estr(e)))?;
+                tx.create_edge(*s, tid, *d);
+            }
+            RW::DeleteEdgeKey { s, t, d } => {
+                let tid = tx.get_or_create_rel_type(t).map_err(|e| ("get_or_create_rel_type".to_string(), estr(e)))?;
+                tx.tombstone_edge(*s, tid, *d);
+            }
+            RW::TombstoneNode { n } => tx.tombstone_node(*n),
+            RW::SetNodeProp { n, k, v } => tx.set_node_property(*n, k.clone(), v.to_api()).map_err(|e| ("set_node_property".to_string(), estr(e)))?,
+            RW::RemoveNodeProp { n, k } => tx.remove_node_property(*n, k).map_err(|e| ("remove_node_property".to_string(), estr(e)))?,
+            RW::SetEdgeProp { s, t, d, k, v } => {
+                let tid = tx.get_or_create_rel_type(t).map_err(|e| ("get_or_create_rel_type".to_string(), estr(e)))?;
+                tx.set_edge_property(*s, tid, *d, k.clone(), v.to_api()).map_err(|e| ("set_edge_property".to_string(), estr(e)))?;
+            }
+            RW::RemoveEdgeProp { s, t, d, k } => {
+                let tid = tx.get_or_create_rel_type(t).map_err(|e| ("get_or_create_rel_type".to_string(), estr(e)))?;
+                tx.remove_edge_property(*s, tid, *d, k).map_err(|e| ("remove_edge_property".to_string(), estr(e)))?;
+            }
+        }
+    }
+    Ok(())
+}
